@@ -40,7 +40,7 @@ def run(R):
     for b in F.bodies.values():
         if b.crate != "ant_bootstrap":
             continue
-        for c in b.calls:
+        for c in b.calls_raw:
             n = c["ncallee"] or ""
             if n in ("std::fs::write", "std::fs::File::create", "std::fs::File::create_new", "std::fs::OpenOptions::write", "std::fs::OpenOptions::append",
                      "std::fs::OpenOptions::truncate", "std::fs::OpenOptions::create", "std::fs::OpenOptions::create_new", "std::fs::rename", "std::fs::copy",
